@@ -314,6 +314,23 @@ class ConstantStreamGenerator(Elaboratable):
                             with m.Else():
                                 m.d.comb += self.stream.valid.eq(valid_due_to_max_length)
 
+                            # The valid bits always mark the low lanes of our word. A big-endian word carries its
+                            # -first- bytes in its high lanes; so when our maximum length cuts a word short, we need
+                            # to move the bytes we're still sending down into the lanes we're marking as valid --
+                            # exactly where they'd be if the data had ended there.
+                            if self._endianness == "big":
+                                with m.If(ending_due_to_max_length):
+                                    with m.Switch(bytes_left_over):
+                                        for i in range(1, bytes_per_word):
+                                            with m.Case(i):
+                                                with m.If(ending_due_to_data_length):
+                                                    if i < valid_bits_last_word:
+                                                        m.d.comb += self.stream.payload.eq(
+                                                            rom_read_port.data >> (8 * (valid_bits_last_word - i)))
+                                                with m.Else():
+                                                    m.d.comb += self.stream.payload.eq(
+                                                        rom_read_port.data >> (8 * (bytes_per_word - i)))
+
 
                     # If we're not on our last word, every valid bit should be set.
                     with m.Else():
